@@ -51,6 +51,8 @@ def main():
             shutil.rmtree(scratch, ignore_errors=True)
         if saved_ev is not None:
             open(evp, "w").write(saved_ev)
+        # translators rewrite lean/ALV/Gen/* from the tree under test: put the committed files back
+        subprocess.call(["git", "-C", VERIF, "checkout", "--", "lean/ALV/Gen"])
     lines = [l for l in out.splitlines() if l.startswith(("VIOLATION", "KNOWN-FINDING", "INFRA", pid))]
     print("\n".join(lines))
     caught = p.returncode == 1 and any(l.startswith("VIOLATION property=%s " % pid) for l in lines)
